@@ -513,12 +513,10 @@ Section Types2.
   Lemma ty_colsall q' r c : cr q' = r -> length c = length (cc q') -> ty_apply inf q' TColsAll (r, c) = (cr q', cc q').
   Proof. intros E1 E2. simpl. rewrite E1. now rewrite overwrite_same_length. Qed.
 
-  Lemma ty_rowsset q' r c ts : firstn (nrows q') ts = cr q' -> length r = length (cr q') -> cc q' = c ->
-    ty_apply inf q' (TRowsSet ts) (r, c) = (cr q', cc q').
-  Proof. intros E0 E1 E2. simpl. rewrite E2, E0. now rewrite overwrite_same_length. Qed.
-  Lemma ty_colsset q' r c ts : firstn (ncols q') ts = cc q' -> cr q' = r -> length c = length (cc q') ->
-    ty_apply inf q' (TColsSet ts) (r, c) = (cr q', cc q').
-  Proof. intros E0 E1 E2. simpl. rewrite E1, E0. now rewrite overwrite_same_length. Qed.
+  Lemma ty_rowatc q' r c i v : cr q' = setn i v r -> cc q' = c -> ty_apply inf q' (TRowAtC i) (r, c) = (cr q', cc q').
+  Proof. intros E1 E2. simpl. rewrite E1, E2. rewrite setn_nth_setn. now rewrite !complete_same. Qed.
+  Lemma ty_colatc q' r c j v : cr q' = r -> cc q' = setn j v c -> ty_apply inf q' (TColAtC j) (r, c) = (cr q', cc q').
+  Proof. intros E1 E2. simpl. rewrite E1, E2. rewrite setn_nth_setn. now rewrite !complete_same. Qed.
 
   Lemma ty_rowsprefix q' r c k : skipn k (cr q') = skipn k r -> k <= length (cr q') -> cc q' = c ->
     ty_apply inf q' (TRowsPrefix k) (r, c) = (cr q', cc q').
@@ -614,8 +612,8 @@ Section Types3.
   (* the rational interface (any mode that has a rational LP) *)
   Lemma Q_types e pm (qo : qop) (q : qlp) :
     WF2 q ->
-    prims_ok (qap_of qo) (qprims rnd e pm (nrows q) (ncols q) q qo) q = true ->
-    let q' := applys (qap_of qo) (qprims rnd e pm (nrows q) (ncols q) q qo) q in
+    prims_ok (qap_of qo) (qprims e pm (nrows q) (ncols q) q qo) q = true ->
+    let q' := applys (qap_of qo) (qprims e pm (nrows q) (ncols q) q qo) q in
     ty_apply inf q' (qtyupd inf (nrows q) (ncols q) qo) (cr q, cc q) = (cr q', cc q') /\ WF2 q'.
   Proof.
     intros Hq Hok q'.
@@ -683,15 +681,6 @@ Proof. induction rs as [|[[a b] v] rs IH]; simpl; auto. Qed.
 Lemma forallb_is_add_cols_d (cs : list (colspec dy)) : forallb is_add (map (prim_map d2q) (map PAddCol cs)) = true.
 Proof. induction cs as [|[[[o a] b] v] cs IH]; simpl; auto. Qed.
 
-(* the calls of the real interface that classify with _rangeTypeReal give the type the rational bounds have *)
-Definition rgap_ok (inf : Q) (ro : rop) : Prop :=
-  match ro with
-  | RChgRow _ (a, b, _) | RRange _ a b | RBnd _ a b => classR a b = classQ inf (d2q a) (d2q b)
-  | RChgCol _ (_, a, b, _) => classR a b = classQ inf (d2q a) (d2q b)
-  | RRangeV a b | RBndV a b => map2 classR a b = map2 (classQ inf) (map d2q a) (map d2q b)
-  | _ => True
-  end.
-
 Section Types4.
   Variable inf : Q.
   Notation cr := (class_rows inf).
@@ -708,11 +697,10 @@ Section Types4.
   Lemma R_types e pm m n (ro : rop) (q : qlp) :
     WF2 q ->
     prims_ok qapply (map (prim_map d2q) (rprims e pm m n ro)) q = true ->
-    rgap_ok inf ro ->
     let q' := applys qapply (map (prim_map d2q) (rprims e pm m n ro)) q in
     ty_apply inf q' (rtyupd m n ro) (cr q, cc q) = (cr q', cc q') /\ WF2 q'.
   Proof.
-    intros Hq Hok Hgap q'.
+    intros Hq Hok q'.
     assert (WF2 q') as Hq' by (unfold q', qapply; apply WF2_applys; auto).
     split; auto. unfold q'. clear q' Hq'. unfold qapply in *.
     destruct ro as [[[a b] v]|rs|[[[o a] b] v]|cs|i [[a b] v]|j [[[o a] b] v]|i x|xs|i x|xs|i a b|a b|j x|xs|j x|xs|j a b|a b|j x|xs|i j x
@@ -725,32 +713,26 @@ Section Types4.
       eapply ty_complete; eauto.
     - destruct (adds_prefix inf _ _ _ (forallb_is_add_cols_d cs) q Hq Hok) as (_ & [r1 E1] & [r2 E2]).
       eapply ty_complete; eauto.
-    - wf. simpl in Hgap. rewrite Hgap. apply ty_rowset; [|reflexivity]. unfold class_rows, applys. simpl. now apply map2_setn.
-    - wf. simpl in Hgap. rewrite Hgap. apply ty_colset; [reflexivity|]. unfold class_cols, applys. simpl. now apply map2_setn.
+    - wf. eapply ty_rowatc; [|reflexivity]. unfold class_rows, applys. simpl. now apply map2_setn.
+    - wf. eapply ty_colatc; [reflexivity|]. unfold class_cols, applys. simpl. now apply map2_setn.
     - eapply ty_rowat; [apply cr_lhs; auto|reflexivity].
     - wf. simpl in Hok. okb Hok. apply ty_rowsall; [|reflexivity].
       unfold class_rows, applys, nrows in *. simpl. rewrite !map2_length; auto; lia.
     - eapply ty_rowat; [apply cr_rhs; auto|reflexivity].
     - wf. simpl in Hok. okb Hok. apply ty_rowsall; [|reflexivity].
       unfold class_rows, applys, nrows in *. simpl. rewrite !map2_length; auto; lia.
-    - simpl in Hgap. rewrite Hgap.
-      destruct (cr_range inf qnz (d2q dinf) i (d2q a) (d2q b) q Hq) as [E1 E2]. apply ty_rowset; auto.
-    - wf. simpl in Hok. okb Hok. simpl in Hgap. rewrite Hgap. unfold nrows in *. simpl in *.
-      apply ty_rowsset; [| |reflexivity]; unfold class_rows, applys, nrows; simpl.
-      + apply firstn_all2. rewrite map2_length; lia.
-      + rewrite !map2_length; auto; lia.
+    - destruct (cr_range inf qnz (d2q dinf) i (d2q a) (d2q b) q Hq) as [E1 E2]. eapply ty_rowat; eauto.
+    - wf. simpl in Hok. okb Hok. apply ty_rowsall; [|reflexivity].
+      unfold class_rows, applys, nrows in *. simpl in *. rewrite !map2_length; auto; lia.
     - eapply ty_colat; [reflexivity|apply cc_lo; auto].
     - wf. simpl in Hok. okb Hok. apply ty_colsall; [reflexivity|].
       unfold class_cols, applys, ncols in *. simpl. rewrite !map2_length; auto; lia.
     - eapply ty_colat; [reflexivity|apply cc_up; auto].
     - wf. simpl in Hok. okb Hok. apply ty_colsall; [reflexivity|].
       unfold class_cols, applys, ncols in *. simpl. rewrite !map2_length; auto; lia.
-    - simpl in Hgap. rewrite Hgap.
-      destruct (cc_bnd inf qnz (d2q dinf) j (d2q a) (d2q b) q Hq) as [E1 E2]. apply ty_colset; auto.
-    - wf. simpl in Hok. okb Hok. simpl in Hgap. rewrite Hgap. unfold ncols in *. simpl in *.
-      apply ty_colsset; [|reflexivity|]; unfold class_cols, applys, ncols; simpl.
-      + apply firstn_all2. rewrite map2_length; lia.
-      + rewrite !map2_length; auto; lia.
+    - destruct (cc_bnd inf qnz (d2q dinf) j (d2q a) (d2q b) q Hq) as [E1 E2]. eapply ty_colat; eauto.
+    - wf. simpl in Hok. okb Hok. apply ty_colsall; [reflexivity|].
+      unfold class_cols, applys, ncols in *. simpl in *. rewrite !map2_length; auto; lia.
     - apply ty_none; reflexivity.
     - apply ty_none; reflexivity.
     - apply ty_none; reflexivity.
@@ -905,15 +887,14 @@ Proof. intros. eapply applys_rel; eauto using adj_zero, adj_neg, adj_inf. Qed.
 
 (* which zero test decides about implicit columns / rows in the two LPs for a call of the rational interface *)
 Definition nzr_of (o : qop) : dy -> bool :=
-  match o with QAddRows false _ | QAddCols false _ | QAddRow true _ | QAddCol true _ => fun _ => true | _ => dnz end.
-Definition nzq_of (o : qop) : Q -> bool :=
-  match o with QAddRow true _ | QAddCol true _ => fun _ => true | _ => qnz end.
+  match o with QAddRow true _ | QAddCol true _ => fun _ => true | _ => dnz end.
+Definition nzq_of (o : qop) : Q -> bool := qnz.
 Lemma rap_of_eq o : rap_of o = papply dzero dneg (nzr_of o) dinf.
 Proof. destruct o; try reflexivity; destruct g; reflexivity. Qed.
 Lemma vdim_all_map {A B} (f : A -> B) (v : svec A) : vdim (fun _ => true) (svec_map f v) = vdim (fun _ => true) v.
 Proof. induction v as [|p v IH]; simpl; auto. now rewrite IH. Qed.
 Lemma qap_of_eq o : qap_of o = papply qzero Qopp (nzq_of o) (d2q dinf).
-Proof. destruct o; try reflexivity; destruct g; reflexivity. Qed.
+Proof. reflexivity. Qed.
 
 Lemma prims_ok_rows_nodup {T} (ap : prim T -> lp T -> lp T) (rs : list (rowspec T)) : forall q,
   prims_ok ap (map PAddRow rs) q = true -> Forall (fun r => nodupb (map fst (snd r)) = true) rs.
@@ -957,16 +938,17 @@ Section Sync.
   Proof. apply Forall2_map_l. intros; apply rnd_adj. Qed.
 
   (* the calls of the rational interface for which the two LPs provably stay related *)
-  Definition vd_ok (g : bool) (v : svec Q) : Prop :=
-    if g then True else vdim dnz (svec_map (rnd RConv) v) = vdim qnz v.
+  Definition vd_ok (v : svec Q) : Prop := vdim dnz (svec_map (rnd RConv) v) = vdim qnz v.
   Definition benign_q (s : state) (q : qlp) (qo : qop) : Prop :=
     match qo with
-    | QAddRow g (_, _, v) => vd_ok g v
-    | QAddRows true rs => Forall (fun r => vd_ok false (snd r)) rs
-    | QAddCol g (_, _, _, v) => vd_ok g v /\ (g = true -> pmax s = lmax q)
-    | QAddCols true cs => Forall (fun c => vd_ok false (snd c)) cs /\ pmax s = lmax q
+    | QAddRow false (_, _, v) => vd_ok v
+    | QAddRows _ rs => Forall (fun r => vd_ok (snd r)) rs
+    | QAddCol false (_, _, _, v) => vd_ok v
+    | QAddCol true _ => pmax s = lmax q
+    | QAddCols false cs => Forall (fun c => vd_ok (snd c)) cs
+    | QAddCols true cs => Forall (fun c => vd_ok (snd c)) cs /\ pmax s = lmax q
     | QElem false _ _ x => keep_q (eps s) x = keep_r (eps s) (rnd RConv x)
-    | QElem true _ _ x => dnz (rnd RGetD x) = keep_r (eps s) (rnd RGetD x)
+    | QElem true _ _ x => qnz x = keep_r (eps s) (rnd RGetD x)
     | _ => True
     end.
 
@@ -994,35 +976,34 @@ Section Sync.
   Qed.
 
   Lemma qprims_rel s q qo :
-    prims_ok (qap_of qo) (qprims rnd (eps s) (pmax s) (nrows q) (ncols q) q qo) q = true ->
+    prims_ok (qap_of qo) (qprims (eps s) (pmax s) (nrows q) (ncols q) q qo) q = true ->
     benign_q s q qo ->
     Forall2 (prim_rel adj dzero qzero (nzr_of qo) (nzq_of qo))
-            (qrprims rnd (eps s) (nrows q) (ncols q) (applys (qap_of qo) (qprims rnd (eps s) (pmax s) (nrows q) (ncols q) q qo) q) (pmax s) qo)
-            (qprims rnd (eps s) (pmax s) (nrows q) (ncols q) q qo).
+            (qrprims rnd (eps s) (nrows q) (ncols q) (applys (qap_of qo) (qprims (eps s) (pmax s) (nrows q) (ncols q) q qo) q) (pmax s) qo)
+            (qprims (eps s) (pmax s) (nrows q) (ncols q) q qo).
   Proof.
     intros Hok Hb.
     destruct qo as [g [[a b] v]|g rs|g [[[o a] b] v]|g cs|i [[a b] v]|j [[[o a] b] v]|i x|xs|i x|xs|xs|i a b|a b|j x|xs|j x|xs|j a b|a b|j x|xs|g i j x
                     |i|j|perm|perm|idx|idx|a b|a b| ]; cbn [qprims qrprims].
-    - (* QAddRow *) constructor; [|constructor]. constructor; [apply rs_rnd_rel|].
-      simpl in Hb. destruct g; [apply vdim_all_map|exact Hb].
-    - (* QAddRows *) destruct g.
-      + simpl in Hb. eapply Forall2_map_same_in; [exact Hb|]. intros [[a b] v] Hv. constructor; [apply rs_rnd_rel|exact Hv].
-      + pose proof (prims_ok_rows_nodup _ _ _ Hok) as Hn.
-        eapply Forall2_map_same_in; [exact Hn|]. intros [[a b] v] Hv. constructor; [now apply rs_rnd_clean_rel|].
-        apply vdim_all_clean.
-    - (* QAddCol *) simpl in Hb. destruct Hb as [Hv Hs]. destruct g.
-      + constructor; [|constructor]. constructor; [|apply vdim_all_map].
-        simpl. split; [|split; [apply rnd_adj|split; [apply rnd_adj|apply sv_rnd]]].
-        unfold applys. simpl. rewrite (Hs eq_refl). apply obj_g_adj.
-      + constructor; [|constructor]. constructor; [apply cs_rnd_rel|exact Hv].
+    - (* QAddRow *) destruct g.
+      + pose proof (prims_ok_rows_nodup _ [(a, b, v)] _ Hok) as Hn. inversion Hn as [|? ? Hn1 _]; subst. simpl in Hn1.
+        constructor; [|constructor]. constructor; [now apply rs_rnd_clean_rel|apply vdim_all_clean].
+      + constructor; [|constructor]. constructor; [apply rs_rnd_rel|exact Hb].
+    - (* QAddRows *) simpl in Hb. eapply Forall2_map_same_in; [exact Hb|]. intros [[a b] v] Hv.
+      destruct g; (constructor; [apply rs_rnd_rel|exact Hv]).
+    - (* QAddCol *) destruct g.
+      + pose proof (prims_ok_cols_nodup _ [(o, a, b, v)] _ Hok) as Hn. inversion Hn as [|? ? Hn1 _]; subst. simpl in Hn1.
+        simpl in Hb. constructor; [|constructor]. constructor; [|apply vdim_all_clean].
+        simpl. split; [|split; [apply rnd_adj|split; [apply rnd_adj|now apply sv_rnd_clean]]].
+        unfold applys. simpl. rewrite Hb. apply obj_g_adj.
+      + constructor; [|constructor]. constructor; [apply cs_rnd_rel|exact Hb].
     - (* QAddCols *) destruct g.
       + simpl in Hb. destruct Hb as [Hv Hs].
         rewrite qap_of_eq. rewrite lmax_qap_addcols. rewrite Hs.
         eapply Forall2_map_same_in; [exact Hv|]. intros [[[o a] b] v] Hv'. constructor; [|exact Hv'].
         simpl. split; [apply obj_g_adj|split; [apply rnd_adj|split; [apply rnd_adj|apply sv_rnd]]].
-      + pose proof (prims_ok_cols_nodup _ _ _ Hok) as Hn.
-        eapply Forall2_map_same_in; [exact Hn|]. intros [[[o a] b] v] Hv. constructor; [now apply cs_rnd_clean_rel|].
-        apply vdim_all_clean.
+      + simpl in Hb. eapply Forall2_map_same_in; [exact Hb|]. intros [[[o a] b] v] Hv.
+        constructor; [apply cs_rnd_rel|exact Hv].
     - constructor; [|constructor]. constructor. apply rs_rnd_rel.
     - constructor; [|constructor]. constructor. apply cs_rnd_rel.
     - constructor; [constructor; apply rnd_adj|constructor].
@@ -1041,7 +1022,8 @@ Section Sync.
     - constructor; [constructor; apply rnd_adj|constructor].
     - constructor; [constructor; apply Forall2_rnd|constructor].
     - (* QElem *) constructor; [|constructor]. constructor. simpl in Hb. unfold elem_r, elem_q. destruct g.
-      + rewrite <- Hb. destruct (dnz (rnd RGetD x)); [apply rnd_adj|apply adj_zero].
+      + rewrite <- Hb. destruct (qnz x) eqn:E; [apply rnd_adj|].
+        apply (adj_Qeq dzero qzero); [|apply adj_zero]. reflexivity.
       + rewrite <- Hb. destruct (keep_q (eps s) x); [apply rnd_adj|apply adj_zero].
     - repeat constructor.
     - repeat constructor.
@@ -1113,22 +1095,22 @@ Section Main.
 
   Definition benign (s : state) (o : op) : Prop :=
     match o with
-    | OR ro => rgap_ok (d2q (pinf s)) ro
+    | OR ro => True
     | OQ qo => match ql s with Some q => benign_q rnd s q qo | None => True end
     | _ => True
     end.
 
   Lemma step_OR_auto s ro q :
     mode s = Auto -> ql s = Some q -> lp_rel adj (rl s) q -> types_ok s q -> WF2 q ->
-    valid_op rnd s (OR ro) = true -> rgap_ok (d2q (pinf s)) ro ->
+    valid_op rnd s (OR ro) = true ->
     InSync (step rnd s (OR ro)).
   Proof.
-    intros Hm Hq Hrel [Ht1 Ht2] Hwf Hv Hgap.
+    intros Hm Hq Hrel [Ht1 Ht2] Hwf Hv.
     unfold valid_op in Hv. rewrite Hm, Hq in Hv.
     apply andb_prop in Hv as [Hv Hv4]. apply andb_prop in Hv as [Hv Hv3]. apply andb_prop in Hv as [Hv1 Hv2].
     unfold step. cbv zeta. rewrite Hm, Hq.
     set (ps := rprims (eps s) (pmax s) (nrows (rl s)) (ncols (rl s)) ro) in *.
-    destruct (R_types (d2q (pinf s)) (eps s) (pmax s) (nrows (rl s)) (ncols (rl s)) ro q Hwf Hv4 Hgap) as [E W].
+    destruct (R_types (d2q (pinf s)) (eps s) (pmax s) (nrows (rl s)) (ncols (rl s)) ro q Hwf Hv4) as [E W].
     exists (qapplys (map (prim_map d2q) ps) q). split; [reflexivity|]. split; [|split].
     - unfold with_lps. cbn [rl]. apply adj_applys; auto. now apply prims_d2q.
     - unfold types_ok, with_lps. cbn [rty cty pinf]. rewrite Ht1, Ht2. fold ps in E. unfold qapplys. rewrite E. split; reflexivity.
@@ -1144,7 +1126,7 @@ Section Main.
     unfold valid_op in Hv. rewrite Hm, Hq in Hv.
     apply andb_prop in Hv as [Hv Hv3]. apply andb_prop in Hv as [Hv1 Hv2].
     unfold step. cbv zeta. rewrite Hm, Hq.
-    destruct (Q_types rnd (d2q (pinf s)) (eps s) (pmax s) qo q Hwf Hv1) as [E W].
+    destruct (Q_types (d2q (pinf s)) (eps s) (pmax s) qo q Hwf Hv1) as [E W].
     eexists. split; [reflexivity|]. split; [|split].
     - unfold with_lps. cbn [rl]. rewrite rap_of_eq, qap_of_eq. apply adj_applys; auto.
       rewrite <- qap_of_eq. now apply qprims_rel.
@@ -1183,11 +1165,14 @@ Section Main2.
   Lemma qrprims_dy_ok e m n q' pm qo : forallb prim_dy_ok (qrprims rnd e m n q' pm qo) = true.
   Proof.
     destruct qo as [g [[a b] v]|g rs|g [[[o a] b] v]|g cs|i [[a b] v]|j [[[o a] b] v]|i x|xs|i x|xs|xs|i a b|a b|j x|xs|j x|xs|j a b|a b|j x|xs|g i j x
-                    |i|j|perm|perm|idx|idx|a b|a b| ]; cbn [qrprims]; try reflexivity;
+                    |i|j|perm|perm|idx|idx|a b|a b| ]; cbn [qrprims]; try reflexivity; try destruct g;
       try (simpl; rewrite ?dy_ok_rnd, ?dy_ok_list, ?dy_ok_svec; reflexivity).
-    - destruct g; induction rs as [|[[a b] v] rs IH]; simpl; auto; rewrite ?dy_ok_rnd, ?dy_ok_svec; auto.
-    - destruct g; simpl; rewrite ?dy_ok_rnd, ?dy_ok_svec, ?dy_ok_sgn; auto using dy_ok_rnd.
-    - destruct g; induction cs as [|[[[o a] b] v] cs IH]; simpl; auto; rewrite ?dy_ok_rnd, ?dy_ok_svec, ?dy_ok_sgn; auto using dy_ok_rnd.
+    - induction rs as [|[[a b] v] rs IH]; simpl; auto; rewrite ?dy_ok_rnd, ?dy_ok_svec; auto.
+    - induction rs as [|[[a b] v] rs IH]; simpl; auto; rewrite ?dy_ok_rnd, ?dy_ok_svec; auto.
+    - simpl; rewrite ?dy_ok_rnd, ?dy_ok_svec, ?dy_ok_sgn; auto using dy_ok_rnd.
+    - induction cs as [|[[[o a] b] v] cs IH]; simpl; auto; rewrite ?dy_ok_rnd, ?dy_ok_svec, ?dy_ok_sgn; auto using dy_ok_rnd.
+    - induction cs as [|[[[o a] b] v] cs IH]; simpl; auto; rewrite ?dy_ok_rnd, ?dy_ok_svec, ?dy_ok_sgn; auto using dy_ok_rnd.
+    - simpl. rewrite dy_ok_elem; auto using dy_ok_rnd.
     - simpl. rewrite dy_ok_elem; auto using dy_ok_rnd.
   Qed.
 
@@ -1318,7 +1303,7 @@ Section Main3.
     - unfold step. now rewrite Hm.
     - destruct md; [congruence| |].
       + unfold step. rewrite Hm. eapply InSync_same; [| | | | |exact HS]; reflexivity.
-      + unfold step. rewrite Hq. exists (qapply (PSense (lmax (rl s))) q). cbn [rl ql rty cty pinf].
+      + unfold step. cbv zeta. rewrite Hq, Hm. exists (qapply (PSense (lmax (rl s))) q). cbn [rl ql rty cty pinf fst snd].
         split; [reflexivity|]. destruct Ht as [T1 T2]. destruct W as [W1 W2]. split; [|split; [split|split]]; auto.
         destruct Hrel as [H1 H2 H3 H4 H5 H6 H7 H8]. constructor; simpl; auto.
         rewrite H7, eqb_reflx. exact H3.
@@ -1411,10 +1396,10 @@ Section Main3.
     intros Hm (_ & _ & C & _) HT Hv. unfold TypesOK in *. unfold valid_op in Hv. unfold step. cbv zeta.
     destruct (mode s) eqn:Em; [congruence| |]; destruct (ql s) as [q|] eqn:Hq; try discriminate Hv.
     - apply andb_prop in Hv as [Hv Hv3]. apply andb_prop in Hv as [Hv1 Hv2]. destruct HT as [T1 T2].
-      destruct (Q_types rnd (d2q (pinf s)) (eps s) (pmax s) qo q (C q eq_refl) Hv1) as [E W].
+      destruct (Q_types (d2q (pinf s)) (eps s) (pmax s) qo q (C q eq_refl) Hv1) as [E W].
       unfold with_lps. cbn [ql]. unfold types_ok. cbn [rty cty pinf]. rewrite T1, T2, E. split; reflexivity.
     - apply andb_prop in Hv as [Hv Hv3]. apply andb_prop in Hv as [Hv1 Hv2]. destruct HT as [T1 T2].
-      destruct (Q_types rnd (d2q (pinf s)) (eps s) (pmax s) qo q (C q eq_refl) Hv1) as [E W].
+      destruct (Q_types (d2q (pinf s)) (eps s) (pmax s) qo q (C q eq_refl) Hv1) as [E W].
       unfold with_lps. cbn [ql]. unfold types_ok. cbn [rty cty pinf]. rewrite T1, T2, E. split; reflexivity.
   Qed.
 
@@ -1430,7 +1415,7 @@ End Main3.
 Definition rprims_ideal (pm : bool) (m n : nat) (o : rop) : list (prim dy) :=
   match o with RElem i j x => [PElem i j x] | _ => rprims dzero pm m n o end.
 Definition qprims_ideal (pm : bool) (m n : nat) (q : qlp) (o : qop) : list (prim Q) :=
-  match o with QElem _ i j x => [PElem i j x] | _ => qprims (fun _ _ => dzero) dzero pm m n q o end.
+  match o with QElem _ i j x => [PElem i j x] | _ => qprims dzero pm m n q o end.
 (* [pm]: the OBJSENSE parameter (clearLP re-applies it) *)
 Definition spec_step (pm : bool) (q : qlp) (o : op) : qlp :=
   match o with
@@ -1447,12 +1432,12 @@ Fixpoint spec_run (pm : bool) (q : qlp) (ops : list op) : qlp :=
 Section Exact.
   Variable rnd : rkind -> Q -> dy.
 
-  (* changeElement stores the value (it is not below epsilon, resp. its double image is not 0) *)
+  (* changeElement stores the value (it is not below epsilon; through the GMP entry point: it is not 0) *)
   Definition elem_kept (s : state) (o : op) : Prop :=
     match o with
     | OR (RElem _ _ x) => keep_r (eps s) x = true
     | OQ (QElem false _ _ x) => keep_q (eps s) x = true
-    | OQ (QElem true _ _ x) => dnz (rnd RGetD x) = true
+    | OQ (QElem true _ _ x) => qnz x = true
     | _ => True
     end.
 
@@ -1500,25 +1485,90 @@ Section Exact.
 End Exact.
 
 (* ================================================================== sufficient conditions for "benign" *)
-(* with the default INFTY the two classifiers are the same function *)
-Lemma rgap_ok_default ro : rgap_ok (d2q dinf) ro.
-Proof.
-  destruct ro as [[[a b] v]|rs|[[[o a] b] v]|cs|i [[a b] v]|j [[[o a] b] v]|i x|xs|i x|xs|i a b|a b|j x|xs|j x|xs|j a b|a b|j x|xs|i j x
-                  |i|j|perm|perm|idx|idx|a b|a b| ]; simpl; auto.
-  - revert b. induction a as [|x a IH]; intros [|y b]; simpl; auto. now rewrite IH.
-  - revert b. induction a as [|x a IH]; intros [|y b]; simpl; auto. now rewrite IH.
-Qed.
-
-Lemma benign_real_default rnd s ro : pinf s = dinf -> benign rnd s (OR ro).
-Proof. intros H. unfold benign. rewrite H. apply rgap_ok_default. Qed.
+(* every call of the real interface is benign (since changeRow/Col/Range/BoundsReal classify with the INFTY parameter) *)
+Lemma benign_real rnd s ro : benign rnd s (OR ro).
+Proof. exact I. Qed.
 
 (* no nonzero entry of the vector underflows to 0.0 *)
 Lemma vd_ok_no_underflow rnd v :
-  (forall p, In p v -> qnz (snd p) = dnz (rnd RConv (snd p))) -> vd_ok rnd false v.
+  (forall p, In p v -> qnz (snd p) = dnz (rnd RConv (snd p))) -> vd_ok rnd v.
 Proof.
   unfold vd_ok. induction v as [|p v IH]; intros H; simpl; auto.
   rewrite <- (H p) by (simpl; auto). rewrite IH; auto. intros; apply H; simpl; auto.
 Qed.
+
+(* ====================================================== the type arrays match the rational bounds in every reachable state *)
+(* outside SYNCMODE_ONLYREAL (where the arrays are not maintained and every way out recomputes them) *)
+Definition TypesInv (s : state) : Prop := mode s <> OnlyReal -> TypesOK s.
+
+Lemma TypesInv_init : TypesInv init.
+Proof. intros H. now elim H. Qed.
+
+Lemma TypesOK_same s s' : ql s' = ql s -> rty s' = rty s -> cty s' = cty s -> pinf s' = pinf s -> TypesOK s -> TypesOK s'.
+Proof. intros E1 E2 E3 E4. unfold TypesOK, types_ok. rewrite E1, E2, E3, E4. auto. Qed.
+
+Lemma TypesOK_sync_rat s : TypesOK (sync_rat s).
+Proof. unfold TypesOK, types_ok, sync_rat. cbn [ql rty cty pinf]. split; reflexivity. Qed.
+
+Section TypesAlways.
+  Variable rnd : rkind -> Q -> dy.
+
+  Lemma mode_step_OR s ro : mode (step rnd s (OR ro)) = mode s.
+  Proof. unfold step. cbv zeta. destruct (mode s) eqn:E; destruct (ql s); unfold with_lps; cbn [mode]; auto. Qed.
+  Lemma mode_step_OQ s qo : mode (step rnd s (OQ qo)) = mode s.
+  Proof.
+    unfold step. cbv zeta. destruct (mode s) eqn:E; destruct (ql s); auto; try destruct qo; unfold with_lps; cbn [mode]; auto.
+  Qed.
+
+  Lemma types_step_real_auto s ro : mode s = Auto -> Inv s -> TypesOK s -> valid_op rnd s (OR ro) = true ->
+    TypesOK (step rnd s (OR ro)).
+  Proof.
+    intros Hm (_ & _ & C & _) HT Hv. unfold valid_op in Hv. rewrite Hm in Hv. unfold TypesOK in *.
+    unfold step. cbv zeta. rewrite Hm. destruct (ql s) as [q|] eqn:Hq.
+    - apply andb_prop in Hv as [Hv Hv4]. destruct HT as [T1 T2].
+      destruct (R_types (d2q (pinf s)) (eps s) (pmax s) (nrows (rl s)) (ncols (rl s)) ro q (C q eq_refl) Hv4) as [E W].
+      unfold with_lps. cbn [ql]. unfold types_ok. cbn [rty cty pinf]. rewrite T1, T2. unfold qapplys. rewrite E. split; reflexivity.
+    - apply andb_prop in Hv as [_ Hv]. discriminate Hv.
+  Qed.
+
+  Theorem types_always s o : Inv s -> TypesInv s -> valid_op rnd s o = true -> TypesInv (step rnd s o).
+  Proof.
+    intros HI HT Hv Hm'. pose proof HI as (A & B & C & D). destruct o as [ro|qo| | | |md|v|mx|v].
+    - rewrite mode_step_OR in Hm'. destruct (mode s) eqn:Hm; [congruence| |].
+      + apply types_step_real_auto; auto. apply HT. congruence.
+      + apply types_step_real_not_auto; [congruence|]. apply HT. congruence.
+    - rewrite mode_step_OQ in Hm'. apply types_step_rational; auto.
+    - unfold step in *. destruct (mode s) eqn:Hm; try (apply HT; congruence).
+      unfold sync_real in *. destruct (ql s) as [q|] eqn:Hq; [|apply HT; congruence].
+      eapply TypesOK_same; [| | | |apply HT; congruence]; cbn [ql rty cty pinf]; auto.
+    - unfold step in *. destruct (mode s) eqn:Hm; try (apply HT; congruence). apply TypesOK_sync_rat.
+    - unfold step in *. destruct (mode s) eqn:Hm; try (apply HT; congruence). apply TypesOK_sync_rat.
+    - unfold step in *. cbv zeta in *. destruct md.
+      + cbn [mode] in Hm'. now elim Hm'.
+      + destruct (mode s) eqn:Hm.
+        * unfold TypesOK, types_ok, sync_rat. cbn [ql rty cty pinf]. split; reflexivity.
+        * eapply TypesOK_same; [| | | |apply HT; congruence]; reflexivity.
+        * eapply TypesOK_same; [| | | |apply HT; congruence]; reflexivity.
+      + destruct (mode s) eqn:Hm.
+        * unfold TypesOK, types_ok. cbn [ql rty cty pinf fst snd]. split; reflexivity.
+        * assert (TypesOK s) as T by (apply HT; congruence). destruct (ql s) as [q|] eqn:Hq; [|elim D; congruence].
+          unfold TypesOK, types_ok in *. rewrite Hq in T. cbn [ql rty cty pinf fst snd]. exact T.
+        * assert (TypesOK s) as T by (apply HT; congruence). destruct (ql s) as [q|] eqn:Hq; [|elim D; congruence].
+          unfold TypesOK, types_ok in *. rewrite Hq in T. cbn [ql rty cty pinf fst snd]. exact T.
+    - unfold step in *. destruct (_ && _); [|now apply HT].
+      destruct (mode s) eqn:Hm; destruct (ql s) as [q|] eqn:Hq; cbn [mode] in Hm'; try congruence;
+        unfold TypesOK, types_ok; cbn [ql rty cty pinf]; rewrite ?Hq; auto; split; reflexivity.
+    - unfold step in *. cbn [mode] in Hm'. specialize (HT Hm'). unfold TypesOK, types_ok in *. cbn [ql rty cty pinf].
+      destruct (ql s) as [q|]; simpl; auto.
+    - unfold step in *. destruct (_ && _); [|now apply HT]. cbn [mode] in Hm'. specialize (HT Hm').
+      unfold TypesOK, types_ok in *. cbn [ql rty cty pinf]. destruct (ql s) as [q|]; simpl; auto.
+  Qed.
+
+  Lemma onlyreal_to_manual_types s : mode s = OnlyReal -> TypesOK (step rnd s (SetMode Manual)).
+  Proof.
+    intros Hm. unfold step. cbv zeta. rewrite Hm. unfold TypesOK, types_ok. cbn [ql rty cty pinf fst snd]. split; reflexivity.
+  Qed.
+End TypesAlways.
 
 (* ====================================================================== statements the faithful model refutes *)
 Definition dI (z : Z) : dy := (z, 0%Z).
@@ -1529,33 +1579,25 @@ Definition d1em20 : dy := (6646139978924579%Z, (-119)%Z).
 Definition base_lp : list op :=
   [OR (RAddCol (dI 1, dI 0, dinf, [])); OR (RAddRow (dI 0, dI 5, [(0, dI 1)]))].
 
-(* (1) INFTY below 1e100: changeRangeReal classifies with _rangeTypeReal *)
+(* (1) INFTY below 1e100 (formerly refuted: changeRangeReal classified with _rangeTypeReal; the row is now UPPER) *)
 Definition hist_gap : list op := SetMode Auto :: base_lp ++ [SetInfty d1e20; OR (RRange 0 dm1e30 (dI 1))].
-Lemma gap_refutes rnd :
-  valid_run rnd init hist_gap = true /\ mode (run rnd init hist_gap) = Auto /\ ~ TypesOK (run rnd init hist_gap).
+Lemma gap_types_ok rnd :
+  valid_run rnd init hist_gap = true /\ mode (run rnd init hist_gap) = Auto /\ TypesOK (run rnd init hist_gap) /\
+  rty (run rnd init hist_gap) = [TUpper].
 Proof.
   split; [vm_compute; reflexivity|]. split; [vm_compute; reflexivity|].
-  unfold TypesOK, types_ok. intros H. set (I := d2q (pinf (run rnd init hist_gap))) in *.
-  assert (rty (run rnd init hist_gap) = [TBoxed]) as E1 by (vm_compute; reflexivity).
-  assert (option_map (class_rows I) (ql (run rnd init hist_gap)) = Some [TUpper]) as E2
-    by (vm_compute; reflexivity).
-  destruct (ql (run rnd init hist_gap)) as [q|]; [|discriminate E2].
-  cbn [option_map] in E2. injection E2 as E2. destruct H as [H _]. congruence.
+  unfold TypesOK, types_ok. vm_compute. repeat split; reflexivity.
 Qed.
 
-(* (2) ONLYREAL -> MANUAL keeps the type arrays of the rational LP that was freed *)
+(* (2) ONLYREAL -> MANUAL (formerly refuted: the type arrays of the freed rational LP were kept; the row is now FIXED) *)
 Definition hist_stale : list op :=
   SetMode Auto :: base_lp ++ [SetMode OnlyReal; SetMode Manual; OQ (QAddRow false (1%Q, 1%Q, [(0, 2%Q)]))].
-Lemma stale_refutes rnd :
-  valid_run rnd init hist_stale = true /\ mode (run rnd init hist_stale) = Manual /\ ~ TypesOK (run rnd init hist_stale).
+Lemma stale_types_ok rnd :
+  valid_run rnd init hist_stale = true /\ mode (run rnd init hist_stale) = Manual /\ TypesOK (run rnd init hist_stale) /\
+  rty (run rnd init hist_stale) = [TFixed].
 Proof.
   split; [vm_compute; reflexivity|]. split; [vm_compute; reflexivity|].
-  unfold TypesOK, types_ok. intros H. set (I := d2q (pinf (run rnd init hist_stale))) in *.
-  assert (rty (run rnd init hist_stale) = [TBoxed]) as E1 by (vm_compute; reflexivity).
-  assert (option_map (class_rows I) (ql (run rnd init hist_stale)) = Some [TFixed]) as E2
-    by (vm_compute; reflexivity).
-  destruct (ql (run rnd init hist_stale)) as [q|]; [|discriminate E2].
-  cbn [option_map] in E2. injection E2 as E2. destruct H as [H _]. congruence.
+  unfold TypesOK, types_ok. vm_compute. repeat split; reflexivity.
 Qed.
 
 (* (3) MANUAL -> AUTO does not synchronise *)
@@ -1588,6 +1630,17 @@ Lemma elem_eps_real_refutes rnd :
 Proof.
   split; [vm_compute; reflexivity|].
   eexists. split; [vm_compute; reflexivity|]. vm_compute. discriminate.
+Qed.
+
+(* (4') changeElementRational(i, j, const mpq_t pointer) with a nonzero value below the double range (formerly dropped from
+   the rational LP because the test was on mpq_get_d): the rational LP holds the number *)
+Definition hist_elem_gmp_tiny : list op := SetMode Auto :: base_lp ++ [OQ (QElem true 0 0 (Qmake 1 (10 ^ 330)))].
+Lemma elem_gmp_tiny_kept rnd :
+  valid_run rnd init hist_elem_gmp_tiny = true /\
+  exists q, ql (run rnd init hist_elem_gmp_tiny) = Some q /\ nth 0 (nth 0 (mat q) []) qzero = Qmake 1 (10 ^ 330).
+Proof.
+  split; [vm_compute; reflexivity|].
+  eexists. split; [vm_compute; reflexivity|]. vm_compute. reflexivity.
 Qed.
 
 (* the remaining witnesses depend on what the conversions return: they are stated for [rnd_impl] *)
@@ -1680,8 +1733,8 @@ Proof.
   - apply keeps_map. reflexivity.
 Qed.
 
-Lemma qprims_sense rnd e pm (q0 : qlp) qo : forall q : qlp, lmax q = pm ->
-  lmax (applys (qap_of qo) (qprims rnd e pm (nrows q0) (ncols q0) q0 qo) q) = pm.
+Lemma qprims_sense e pm (q0 : qlp) qo : forall q : qlp, lmax q = pm ->
+  lmax (applys (qap_of qo) (qprims e pm (nrows q0) (ncols q0) q0 qo) q) = pm.
 Proof.
   intros q H. rewrite qap_of_eq. destruct qo; try reflexivity;
     (rewrite lmax_applys_keep; [exact H|]; cbn [qprims forallb keeps_sense andb]; try reflexivity).
